@@ -12,7 +12,20 @@ def lit_src(src: str) -> str:
     return LIT_SRC.get(src, src)
 
 
-def write_pkg(files: dict[str, str], root_name: str) -> Path:
+FOREIGN_LIB = {
+    "frgnlib": {
+        "__init__.py": "class Shape:\n    pass\n\n\nclass vector:\n    pass\n\n\nclass snake_case_cls:\n    pass\n",
+        "core/__init__.py": "class Grid:\n    pass\n",
+        "core/frame.py": "class Frame:\n    pass\n\n\nclass frame_two:\n    pass\n",
+    },
+}
+FOREIGN_LIB_USE = (
+    "from frgnlib import Shape, vector, snake_case_cls\nfrom frgnlib.core import Grid\nfrom frgnlib.core.frame import Frame, frame_two\n\n\n"
+    "def flib(a: Shape, b: vector, c: Grid, d: Frame, e: frame_two, f: snake_case_cls) -> Shape:\n    ...\n\n\nclass FSub(Grid):\n    pass\n"
+)
+
+
+def write_pkg(files: dict[str, str], root_name: str, siblings: dict | None = None) -> Path:
     """files: relative path (under the package root dir) -> text. Returns the package directory.
 
     The parent directory has no __init__.py and no test/tests/docs segment.
@@ -23,6 +36,12 @@ def write_pkg(files: dict[str, str], root_name: str) -> Path:
         p = root / rel
         p.parent.mkdir(parents=True, exist_ok=True)
         p.write_text(text, encoding="utf-8")
+    # sibling packages: resolvable by the type checker (same parent directory) but not part of the analysed package
+    for name, sfiles in (siblings or {}).items():
+        for rel, text in sfiles.items():
+            p = base / name / rel
+            p.parent.mkdir(parents=True, exist_ok=True)
+            p.write_text(text, encoding="utf-8")
     return root
 
 
